@@ -2,6 +2,17 @@
 from .. import facts, inv
 from ..hir import walk, strip_generics
 
+LINE_FNS = [
+    "span::Span::<'i>::lines",
+    "span::Span::<'i>::lines_span",
+    "span::Span::<'i>::as_str",
+    "<{K}::span::LinesSpan<'i> as core::iter::traits::iterator::Iterator>::next",
+    "<{K}::span::Lines<'i> as core::iter::traits::iterator::Iterator>::next",
+    "position::Position::<'i>::find_line_start",
+    "position::Position::<'i>::find_line_end",
+    "position::Position::<'i>::line_of",
+]
+REACH_FLOOR = 20  # 30 on the pinned tree
 ENTRIES = ["<pest_typed::span::Span<'i> as core::fmt::Display>::fmt",
            "<pest_typed::position::Position<'i> as core::fmt::Display>::fmt",
            "pest_typed::span::Span::<'i>::display", "pest_typed::position::Position::<'i>::display"]
@@ -72,8 +83,11 @@ def run(ctx):
     if stale:
         rp.note("stale discharge entries (site gone; not an error): %s" % stale)
     rp.note("%d functions reachable from the 4 entry points" % len(reach))
-    rp.require(11, "panic-capable sites")
-    ru.require(5, "subtraction sites")
+    if len(reach) < REACH_FLOOR:
+        rp.violate("<reach>", "only %d functions reachable from the Display entry points: call graph lost its anchors" % len(reach))
+    # site floors are about half of today's counts (12 / 6): removing a panic-capable site is not a violation
+    rp.require(6, "panic-capable sites")
+    ru.require(3, "subtraction sites")
 
     # control pictures
     rc = ctx.rule("R14-PICT", "visualize_ws_and_cntrl maps U+0000..U+001F to U+2400+code and U+007F to U+2421")
@@ -121,6 +135,19 @@ def run(ctx):
             rs.violate(nm, "a path returns Ok(()) without having displayed any snippet (the line search loop can end without a hit)",
                        c.loc(b["value"].get("sp")))
     rs.require(2, "functions")
+
+    # the lines Display shows are cut by Span::lines / Position::find_line_*: these must split exactly as pest's do
+    rl = ctx.rule("R14-LINES", "the line-splitting helpers Display reaches (Span::lines, Lines/LinesSpan::next, Position::find_line_start/"
+                  "find_line_end/line_of, Span::as_str) have pest's bodies: a shown line is the whole source line, nothing more")
+    from .c12_c13 import compare_pairs
+    if fs.get("pest") is None:
+        rl.violate("pest", "no facts for the pest crate")
+    else:
+        compare_pairs(ctx, rl, fs, LINE_FNS)
+        from .c12_c13 import ident
+        used = [f for f in LINE_FNS if ident(f, "pest_typed") in reach]
+        rl.note("%d of these are in Display's call graph today" % len(used))
+    rl.require(len(LINE_FNS), "helpers")
     ctx.assume("line numbers, line selection and marker columns are arithmetic over runtime values: not decided")
     ctx.assume("discharge reasons in tables/discharge_c14.json are reviewed arguments, part of the specification; a new site fails the check until reviewed")
     ctx.explanation = ("Call-graph inventory of panic-capable and usize-subtraction sites reachable from the Display/display entry points of "
